@@ -20,6 +20,49 @@ pub fn pred(name: &str, t: &TimeSpec) -> bool {
     }
 }
 
+/// The validity pair (nb, na) through every way a certificate can be issued: only time findings count.
+fn judge_entry_points(prop: &str, nb: &TimeSpec, na: &TimeSpec, ctxs: &[Ctx]) -> Outcome {
+    let mut out = Outcome::default();
+    if !(0..=9999).contains(&nb.utc_year()) || !(0..=9999).contains(&na.utc_year()) {
+        return out;
+    }
+    let mut st = CertState::default();
+    st.not_before = *nb;
+    st.not_after = *na;
+    st.serial = Some(vec![1]);
+    let mut first: Option<Vec<u8>> = None;
+    for c in ctxs {
+        let ev = eval_cert(&st, c);
+        out.transitions += ev.transitions;
+        if ev.unconstructible.is_some() {
+            return out;
+        }
+        if let Some(p) = &ev.panic {
+            out.findings.push(Finding::new("TIME-PANIC(validity)", &c.label, p.clone()));
+        }
+        if let Some(e) = &ev.err {
+            out.findings.push(Finding::new("TIME-REFUSED(validity)", &c.label, e.clone()));
+        }
+        for mut f in ev.findings.into_iter().filter(|f| crate::certeval::relevant(prop, f)) {
+            f.detail = format!("{} [{}]", f.detail, c.label);
+            out.findings.push(f);
+        }
+        // the Validity bytes do not depend on the entry point
+        if let Some(der) = &ev.der {
+            if let Some(v) = refmodel::x509::decode_cert(der).value.map(|a| format!("{:?} {:?}", a.not_before, a.not_after).into_bytes()) {
+                out.digest = fnv(&v);
+                match &first {
+                    None => first = Some(v),
+                    Some(f0) if *f0 != v => out.findings.push(Finding::new("TIME-ENTRY-POINT-DEPENDENT", "validity", format!("Validity differs between entry points ({})", c.label))),
+                    _ => {}
+                }
+            }
+        }
+    }
+    out.findings.dedup_by(|a, b| a.sig() == b.sig());
+    out
+}
+
 fn judge_time(prop: &str, known: &[KnownEntry], t: &TimeSpec, self_ctx: &Ctx, issuer: &IssuerReal) -> Outcome {
     let mut out = Outcome::default();
     // UTC year must lie in 0..=9999 (else the state belongs to C10)
@@ -56,7 +99,17 @@ fn judge_time(prop: &str, known: &[KnownEntry], t: &TimeSpec, self_ctx: &Ctx, is
         if !(0..=9999).contains(&this.utc_year()) || !(0..=9999).contains(&next.utc_year()) {
             continue;
         }
-        let cst = CrlState { this_update: this, next_update: next, revoked: vec![RevokedSpec { serial: vec![5], time: *t, reason: None, invalidity: None }], ..CrlState::default() };
+        // the revocation time rides along with every reason/invalidity-date shape: an earlier and a later invalidity
+        // date, key compromise and another reason (what accompanies a time must not change how it is written)
+        let inv = |d: i64| Some(day(t, d)).filter(|x| (0..=9999).contains(&x.utc_year()));
+        let revoked = vec![
+            RevokedSpec { serial: vec![5], time: *t, reason: None, invalidity: None },
+            RevokedSpec { serial: vec![6], time: *t, reason: Some(1), invalidity: inv(-400) },
+            RevokedSpec { serial: vec![7], time: *t, reason: Some(1), invalidity: inv(400) },
+            RevokedSpec { serial: vec![8], time: *t, reason: Some(4), invalidity: inv(-400) },
+            RevokedSpec { serial: vec![9], time: *t, reason: None, invalidity: inv(-1) },
+        ];
+        let cst = CrlState { this_update: this, next_update: next, revoked, ..CrlState::default() };
         let ev = eval_crl(&cst, issuer);
         out.transitions += ev.transitions;
         if ev.unconstructible.is_some() {
@@ -75,8 +128,11 @@ fn judge_time(prop: &str, known: &[KnownEntry], t: &TimeSpec, self_ctx: &Ctx, is
     }
     // normalise loci of per-entry findings
     for f in findings.iter_mut() {
-        if f.locus.starts_with("tbs.revoked[0].") {
-            f.locus = f.locus.replace("tbs.revoked[0].", "");
+        for i in 0..5 {
+            let pre = format!("tbs.revoked[{}].", i);
+            if f.locus.starts_with(&pre) {
+                f.locus = f.locus.replace(&pre, "");
+            }
         }
     }
     findings.dedup_by(|a, b| a.sig() == b.sig());
@@ -210,6 +266,42 @@ pub fn run(prop: &str, tier: &str, replay: Option<&str>) -> i32 {
             out.findings.extend(ev.findings.into_iter().filter(|f| crate::certeval::relevant(prop, f)));
             out
         });
+        rep.add(sec);
+    }
+    // every way of issuing a certificate writes the same Validity: self-signed, issuer-signed for each public-key
+    // source, and through a parsed CSR; the issuers' own validity differs from every value used here
+    #[cfg(feature = "crypto")]
+    {
+        let zoo = crate::keys::load_zoo();
+        let idn = DnSpec::cn("c09 issuer");
+        let ctxs: Vec<Ctx> = vec![
+            stub_self_ctx(Alg::Ed25519, 1),
+            stub_issuer_ctx(Alg::Ed25519, &idn, &KeyIdSpec::Sha256, Alg::EcP256, "pair"),
+            stub_issuer_ctx(Alg::EcP256, &idn, &KeyIdSpec::Sha256, Alg::Ed25519, "spki"),
+            stub_issuer_ctx(Alg::EcP256, &idn, &KeyIdSpec::Sha256, Alg::Ed25519, "custom"),
+            csr_pub_ctx(&zoo, &idn, &KeyIdSpec::Sha256),
+            via_csr_ctx(&zoo, crate::keys::KeyKind::Ed25519, Alg::Ed25519, &idn, &KeyIdSpec::Sha256),
+        ];
+        // notable instants: the defaults, the issuer's own validity, the form boundaries and their neighbours, extremes, sub-second parts
+        let mut inst: Vec<TimeSpec> = vec![
+            TimeSpec::ymd(1975, 1, 1),
+            TimeSpec::ymd(4096, 1, 1),
+            TimeSpec::ymdhms(2001, 2, 3, 4, 5, 6),
+            TimeSpec::ymdhms(2061, 7, 8, 9, 10, 11),
+            TimeSpec::ymd(1970, 1, 1),
+            TimeSpec::ymd(2024, 2, 29),
+            TimeSpec { unix: days_from_civil(2024, 2, 29) * 86400 + 45296, nanos: 999_999_999, offset: 19800 },
+            TimeSpec { unix: days_from_civil(1975, 1, 1) * 86400, nanos: 0, offset: -3600 },
+            TimeSpec { unix: days_from_civil(4096, 1, 1) * 86400, nanos: 0, offset: 3600 },
+        ];
+        for (_, b) in boundaries() {
+            for d in [-1i64, 0, 1] {
+                inst.push(TimeSpec::utc(b + d));
+            }
+        }
+        let pairs: Vec<(usize, usize)> = (0..inst.len()).flat_map(|a| (0..inst.len()).map(move |b| (a, b))).collect();
+        let sec = Section::new("entry-points/validity pairs", &format!("all {} ordered pairs (notBefore, notAfter) over {} notable instants (the defaults, the issuers' own validity, form boundaries +-1 s, extremes, offsets, sub-second parts) x 6 ways of issuing (self-signed; issuer-signed with key pair / parsed SPKI / custom public key / CSR public key; CertificateSigningRequestParams::signed_by): time findings and identical Validity across entry points", inst.len() * inst.len(), inst.len())).with_deadline(cap);
+        run::sweep_cases(&sec, &pairs, &|p| format!("notBefore={} notAfter={}", inst[p.0].label(), inst[p.1].label()), &|p| judge_entry_points(prop, &inst[p.0], &inst[p.1], &ctxs));
         rep.add(sec);
     }
     let _ = stub_key;
